@@ -10,6 +10,7 @@ CONSTANTS
   Fams = {}
   ArrFns = {"concatenate","where","clip","copyto_where"}
   UfOps = {"add","subtract","less","equal","maximum","hypot","divmod"}
+  SpUnits = {}
 INIT Init
 NEXT TNext
 INVARIANT Export
